@@ -40,6 +40,11 @@ CHECKS = {
    text="TLC enumerates every SSA program of up to 3 steps (5 in simulation) over arithmetic/alias/concat steps and two value sizes and checks that GC placement plus LIFO id recycling never lets a step read a recycled wire (it produces the counterexamples of the two repaired defects when the model is set back); on the real code templates and seeded generated programs (incl. > 65535 live ids) are streamed and compared, for both parties, values and output types, with Compile+Compute; every recorded step of real runs is checked by TLC: each wire read must still hold what its producer wrote.",
    note="Trusts TLC, whole-circuit Compute as reference, the verif hook in Program.Stream (1 add-only call).",
    ref="5 C05"),
+ "C17": dict(
+   technique="TLA+ spec Pool.tla (lazy pool creation by Load/CAS, sync.Pool Get/Put with runtime drops, non-atomic fill, idempotent Release) model-checked by TLC over all interleavings; forced CAS race replayed through a verif gate; stress histories (buffer identity, handle lifetimes) validated by TLC against PoolTrace.tla; the same stress under the Go race detector",
+   text="TLC explores every interleaving of 2-3 goroutines x up to 5 Garble/Release operations incl. double release and buffers dropped by the runtime and checks StableUntilRelease/Exclusive/NoDoublePut/NoOverwrite/OnePool (deviations such as a Release that keeps its scratch or a Garble that re-pools on return are rejected by the model); on the real code the creation race is forced through a gate, 2-8 goroutines share one fresh circuit, every garbling is evaluated against Compute when made and again right before release, the recorded lifetimes per scratch buffer must be exclusive in TLC, and the race detector must stay silent.",
+   note="Trusts TLC, the Go race detector (for 'free of data races'), buffer identity = address of Wires[0]; a process crash while sharing a circuit counts as a violation.",
+   ref="5 C17"),
 }
 
 NOT_APPLICABLE = {}
